@@ -19,7 +19,7 @@ Trace == ndJsonDeserialize("trace.ndjson")
 
 VARIABLES l, cur, lost, bad, skipped
 
-tvars == <<l, cur, lost, bad, skipped>>
+tvars == <<l, cur, lost, bad, skipped, running, file, reported, last>>
 
 \* JSON arrays arrive as sequences: the rewrite list is compared as a set.
 Norm(r) == [c \in Comps |-> IF c = "rw" THEN {r.rw[i] : i \in DOMAIN r.rw} ELSE r[c]]
@@ -36,7 +36,7 @@ Matches(s, ln) ==
     IF ~Clean(ln) THEN {}
     ELSE {o \in Outs(s, ln) : o.cls = ln.cls /\ o.st = Norm(ln.rep) /\ o.st = Norm(ln.file)}
 
-TInit == l = 1 /\ cur = Init0 /\ lost = FALSE /\ bad = {} /\ skipped = 0
+TInit == Init /\ l = 1 /\ cur = Init0 /\ lost = FALSE /\ bad = {} /\ skipped = 0
 
 TStep ==
     /\ l <= Len(Trace)
@@ -56,6 +56,7 @@ TStep ==
                                               ELSE IF ~Clean(ln) THEN "dirty" ELSE "state"]}
                  /\ lost' = TRUE /\ UNCHANGED <<cur, skipped>>
     /\ l' = l + 1
+    /\ UNCHANGED vars
     /\ (l' = Len(Trace) + 1 => PrintT(<<"@@V", ToJson([n |-> Len(Trace), bad |-> bad', skipped |-> skipped'])>>))
 
 TSpec == TInit /\ [][TStep]_tvars
